@@ -385,6 +385,8 @@ def _send_shards(tier):
             out.append(("len(message) == %d" % m, "budget == %d" % k))
         else:
             for c in range(1, 7):
+                if c == 6 and k < 2:
+                    continue  # a 2-octet first character cannot fit a 1-octet budget: the shard would be vacuous
                 out.append(("len(message) == %d" % m, "budget == %d" % k, "_cls(message[0]) == %d" % c))
     for n in range(m + 1, mr + 1):
         for k in range(1, w + 1):
